@@ -74,50 +74,56 @@ macro "field_simp" : tactic =>
 
 theorem C13_gen_always_no_input (W : World Unit) (f : FieldMeta) (o : Opts) (h : WfField f) :
     Field.always_no_input W (encField f) (encOpts o) = .ok (.bool (alwaysNoInput f o)) := by
-  obtain ⟨_, _, _, required, hasDefault, deferDefault, noInput, noOutput, mode, final, _, _, _, _, _⟩ := f
-  obtain ⟨omode, _, ir, nd, dd⟩ := o
-  simp only [WfField] at h
-  cases final <;> cases hasDefault <;> cases noInput <;> cases omode <;> cases mode <;> field_simp <;>
-    grind
+  gen_obligation "C13_gen_always_no_input: the regenerated code (Utv.Gen) is no longer equal to the hand model here" by
+    obtain ⟨_, _, _, required, hasDefault, deferDefault, noInput, noOutput, mode, final, _, _, _, _, _⟩ := f
+    obtain ⟨omode, _, ir, nd, dd⟩ := o
+    simp only [WfField] at h
+    cases final <;> cases hasDefault <;> cases noInput <;> cases omode <;> cases mode <;> field_simp <;>
+      grind
 
 theorem C13_gen_always_no_output (W : World Unit) (f : FieldMeta) (o : Opts) (h : WfField f) :
     Field.always_no_output W (encField f) (encOpts o) = .ok (.bool (alwaysNoOutput f o)) := by
-  obtain ⟨_, _, _, required, hasDefault, deferDefault, noInput, noOutput, mode, final, _, _, _, _, _⟩ := f
-  obtain ⟨omode, _, ir, nd, dd⟩ := o
-  simp only [WfField] at h
-  cases noOutput <;> cases omode <;> cases mode <;> field_simp <;> grind
+  gen_obligation "C13_gen_always_no_output: the regenerated code (Utv.Gen) is no longer equal to the hand model here" by
+    obtain ⟨_, _, _, required, hasDefault, deferDefault, noInput, noOutput, mode, final, _, _, _, _, _⟩ := f
+    obtain ⟨omode, _, ir, nd, dd⟩ := o
+    simp only [WfField] at h
+    cases noOutput <;> cases omode <;> cases mode <;> field_simp <;> grind
 
 theorem C13_gen_is_required (W : World Unit) (f : FieldMeta) (o : Opts) (h : WfField f) :
     Field.is_required W (encField f) (encOpts o) = .ok (.bool (isRequired f o)) := by
-  rw [Field.is_required, C13_gen_always_no_input W f o h]
-  unfold isRequired
-  generalize alwaysNoInput f o = ani
-  obtain ⟨_, _, _, required, hasDefault, deferDefault, noInput, noOutput, mode, final, _, _, _, _, _⟩ := f
-  obtain ⟨omode, _, ir, nd, dd⟩ := o
-  cases ir <;> cases required <;> cases omode <;> cases ani <;> field_simp <;> grind
+  gen_obligation "C13_gen_is_required: the regenerated code (Utv.Gen) is no longer equal to the hand model here" by
+    rw [Field.is_required, C13_gen_always_no_input W f o h]
+    unfold isRequired
+    generalize alwaysNoInput f o = ani
+    obtain ⟨_, _, _, required, hasDefault, deferDefault, noInput, noOutput, mode, final, _, _, _, _, _⟩ := f
+    obtain ⟨omode, _, ir, nd, dd⟩ := o
+    cases ir <;> cases required <;> cases omode <;> cases ani <;> field_simp <;> grind
 
 /-- run-time `is_no_input(value, options)`: the value plays no part for a non-callable `no_input` -/
 theorem C13_gen_is_no_input (W : World Unit) (f : FieldMeta) (o : Opts) (v : U) (h : WfField f) :
     Field.is_no_input W (encField f) v (encOpts o) = .ok (.bool (isNoInput f o)) := by
-  obtain ⟨_, _, _, required, hasDefault, deferDefault, noInput, noOutput, mode, final, _, _, _, _, _⟩ := f
-  obtain ⟨omode, _, ir, nd, dd⟩ := o
-  simp only [WfField] at h
-  cases final <;> cases hasDefault <;> cases noInput <;> cases omode <;> cases mode <;> field_simp <;> grind
+  gen_obligation "C13_gen_is_no_input: the regenerated code (Utv.Gen) is no longer equal to the hand model here" by
+    obtain ⟨_, _, _, required, hasDefault, deferDefault, noInput, noOutput, mode, final, _, _, _, _, _⟩ := f
+    obtain ⟨omode, _, ir, nd, dd⟩ := o
+    simp only [WfField] at h
+    cases final <;> cases hasDefault <;> cases noInput <;> cases omode <;> cases mode <;> field_simp <;> grind
 
 theorem C13_gen_is_no_output (W : World Unit) (f : FieldMeta) (o : Opts) (v : U) (h : WfField f) :
     Field.is_no_output W (encField f) v (encOpts o) = .ok (.bool (isNoOutput f o)) := by
-  obtain ⟨_, _, _, required, hasDefault, deferDefault, noInput, noOutput, mode, final, _, _, _, _, _⟩ := f
-  obtain ⟨omode, _, ir, nd, dd⟩ := o
-  simp only [WfField] at h
-  cases noOutput <;> cases omode <;> cases mode <;> field_simp <;> grind
+  gen_obligation "C13_gen_is_no_output: the regenerated code (Utv.Gen) is no longer equal to the hand model here" by
+    obtain ⟨_, _, _, required, hasDefault, deferDefault, noInput, noOutput, mode, final, _, _, _, _, _⟩ := f
+    obtain ⟨omode, _, ir, nd, dd⟩ := o
+    simp only [WfField] at h
+    cases noOutput <;> cases omode <;> cases mode <;> field_simp <;> grind
 
 /-- `get_default(options, defer=False)` hands out (a copy of) the default exactly when `defaultApplies` -/
 theorem C13_gen_get_default (W : World Unit) (f : FieldMeta) (o : Opts) :
     Field.get_default W (encField f) (encOpts o) (.bool false) =
       if defaultApplies f o then W.ext "copy_value" [.val ()] else .ok .unprovided := by
-  obtain ⟨_, _, _, required, hasDefault, deferDefault, noInput, noOutput, mode, final, _, _, _, _, _⟩ := f
-  obtain ⟨omode, _, ir, nd, dd⟩ := o
-  cases hasDefault <;> cases deferDefault <;> cases nd <;> cases dd <;> field_simp
+  gen_obligation "C13_gen_get_default: the regenerated code (Utv.Gen) is no longer equal to the hand model here" by
+    obtain ⟨_, _, _, required, hasDefault, deferDefault, noInput, noOutput, mode, final, _, _, _, _, _⟩ := f
+    obtain ⟨omode, _, ir, nd, dd⟩ := o
+    cases hasDefault <;> cases deferDefault <;> cases nd <;> cases dd <;> field_simp
 
 /-! ### the tables of `constant.py` (and `DEFAULT_PRIMITIVE`, `MAX_SAFE_NUMBER`) the model holds copies of -/
 
@@ -131,6 +137,7 @@ theorem C13_gen_tables :
     FORMAT_PATTERNS = JsonTables.FORMAT_PATTERNS ∧
     DEFAULT_PRIMITIVE = JsonTables.DEFAULT_PRIMITIVE ∧
     MAX_SAFE = CodecTables.MAX_SAFE_NUMBER ∧ -MAX_SAFE = CodecTables.MIN_SAFE_NUMBER := by
-  refine ⟨?_, ?_, ?_, ?_, ?_, ?_, ?_, ?_, ?_, ?_⟩ <;> decide
+  gen_obligation "C13_gen_tables: the regenerated code (Utv.Gen) is no longer equal to the hand model here" by
+    refine ⟨?_, ?_, ?_, ?_, ?_, ?_, ?_, ?_, ?_, ?_⟩ <;> decide
 
 end Utv.GenEq.C13
